@@ -284,6 +284,13 @@ fn main() {
                                 push("C07", "slice_shape", format!("--year {y}: {} tax years returned", r1.tax_years.len()));
                                 continue;
                             }
+                            // C04: the single-year view carries the year's dividend totals of the specification as well
+                            if let Some(ey) = rr.years.iter().find(|e| e.year == y) {
+                                let t = &r1.tax_years[0];
+                                if !ey.div_income.close_to(t.dividend_income, tol()) || !ey.div_tax.close_to(t.dividend_tax_paid, tol()) {
+                                    push("C04", "year_dividends", format!("--year {y}: dividend income / tax {} / {}, expected {} / {}", t.dividend_income, t.dividend_tax_paid, ey.div_income.show(), ey.div_tax.show()));
+                                }
+                            }
                             match rep.tax_years.iter().find(|t| t.period.start_year() == y) {
                                 Some(full) => {
                                     if *full != r1.tax_years[0] {
